@@ -358,9 +358,53 @@ def rule_r7(ctx):
     r.ob(rem, "nni_id_remove does not re-initialise the map")
 
 
+
+def rule_r8(ctx):
+    r = ctx.rule("C18.R8", "T3", "a cursor is wrapped with the extent of the ring it will index: in a function that replaces a "
+                 "ring's mask / allocation size, no cursor field keeps a value computed from that field before the new value is stored",
+                 floor=1)
+    prog = ctx.prog
+    EXTENT = {"nni_lmq.lmq_mask": ("nni_lmq.lmq_get", "nni_lmq.lmq_put"), "nni_lmq.lmq_alloc": ("nni_lmq.lmq_get", "nni_lmq.lmq_put"),
+              "nni_msgq.mq_alloc": ("nni_msgq.mq_get", "nni_msgq.mq_put")}
+    n = 0
+    for f in prog.fns_in("core/lmq.c", "core/msgqueue.c"):
+        if f.cfg_failed:
+            continue
+        for ext, cursors in EXTENT.items():
+            sets = [t for t in f.assigns() if t.node["lhs"].get("k") == "mem" and last_field(t.node["lhs"]) == ext and
+                    t.node.get("op") == "="]
+            if not sets:
+                continue
+            for t in f.assigns():
+                if t.node["lhs"].get("k") != "mem" or last_field(t.node["lhs"]) not in cursors:
+                    continue
+                rhs = f.expand(t.node["rhs"])
+                uses = [m for m in walk(rhs) if m.get("k") == "mem" and last_field(m) == ext]
+                if not uses:
+                    continue
+                n += 1
+                # the value survives the replacement: the extent store is reachable from here without the cursor being
+                # assigned again (draining the old ring before it is replaced re-assigns the cursor afterwards)
+                again = {(y.b, y.i) for y in f.assigns() if y.node["lhs"].get("k") == "mem" and
+                         last_field(y.node["lhs"]) == last_field(t.node["lhs"]) and (y.b, y.i) != (t.b, t.i)}
+                after = f.reach((t.b, t.i + 1), blocked=lambda b, i, e: (b, i) in again)
+                stale = [x for x in sets if (x.b, x.i) in after]
+                fresh = [x for x in sets if (t.b, t.i) in f.reach((x.b, x.i + 1))]
+                if stale:
+                    ctx.fail(r, f, "%s computed from the old %s" % (last_field(t.node["lhs"]), ext.split(".")[1]), t.line,
+                             "%s at line %s reads %s, which this function replaces at line %s afterwards: the cursor is wrapped "
+                             "for the old ring and indexes the new one at the wrong slot (messages are overwritten or skipped)"
+                             % (show(t.node["lhs"]), t.line, ext, stale[0].line))
+                else:
+                    r.ob(f, "%s uses the %s stored at line %s" % (show(t.node["lhs"]), ext.split(".")[1], fresh[0].line if fresh else "?"))
+    if n < 1:
+        raise AnalysisBroken("no cursor computed from a ring extent in a function that replaces it")
+
+
 def run(ctx):
     ctx.guard(rule_r1)
     ctx.guard(rule_r2)
     ctx.guard(rule_r3)
     ctx.guard(rule_r5)
     ctx.guard(rule_r7)
+    ctx.guard(rule_r8)
